@@ -27,7 +27,7 @@ BOUND = "consent table with 0..2 registrations; transaction with 0..1 extra meta
 PK = OBJ("ipv8/keyvault/public/openssl.py::OpenSSLPK", ec=OBJ("contracts/common.py::RustPublicKeyModel", bin=BYTES))
 TOKEN = OBJ(f"{TK}::Token", content_hash=BYTES_N(32), _hash=BYTES_N(32))
 TREE = OBJ(f"{TT}::TokenTree", public_key=PK, elements=DICTOBJ(BYTES, TOKEN, where="v._hash == k"))
-DB = EFFECT("database", get_attestations_over={"returns": EXPR("['ATT'][:n_att]")}, get_authority={"returns": EXPR("[auth]")},
+DB = EFFECT("database", get_attestations_over={"returns": EXPR("['ATT'][:n_att]")}, get_authority={"returns": EXPR("auth")},
             insert_attestation={}, insert_token={}, insert_metadata={})
 PSEUDO = OBJ(f"{IM}::PseudonymManager", tree=TREE, database=DB)
 MYPEER = OBJ("ipv8/peer.py::Peer", public_key=PK)
@@ -197,3 +197,16 @@ def handout_spec(chain, permitted, known):
 
 def is_prefix_of(a, b):
     return b[:len(a)] == a
+
+# ---------------------------------------------------------------------------------------------------------------------
+# the shape of what the database hands back for "who attested this" (the contract above assumes exactly this shape)
+IDB = "ipv8/attestation/identity/database.py"
+contract(f"{IDB}::IdentityDatabase.get_authority", "get_authority-returns-the-key",
+         vars={"K": BYTES, "att": OBJ("ipv8/attestation/identity/attestation.py::Attestation", signature=BYTES, metadata_pointer=BYTES),
+               "self": OBJ(f"{IDB}::IdentityDatabase", _logger=LOGGER(), _file_path=STR,
+                           _cursor=EFFECT("cursor", execute={"returns": EFFECT("rows", fetchone={"returns": EXPR("(K,)")},
+                                                                              fetchall={"returns": EXPR("[(K,)]")})}))},
+         call="self.get_authority(att)", raises=[],
+         on_effect={"cursor.execute": ["args[1] == (att.signature,)", "'authority_key' in args[0] and 'Attestations' in args[0]"]},
+         ensures=["result == K"],
+         note="one key (bytes), selected by the attestation's signature - not a collection of keys")
